@@ -48,6 +48,15 @@ void vdie(const char *prefix, const char *func, const char *errstr, ...) __attri
 
 /* clang-format on */
 
+#ifdef OVNI_VERIF
+/* Verification hook: schedule perturbation point. Sleeps a random time up to
+ * 200 us when OVNI_VERIF_DELAY=<seed> is set in the environment. */
+void verif_yield(const char *site);
+#define OVNI_VERIF_YIELD(site) verif_yield(site)
+#else
+#define OVNI_VERIF_YIELD(site) do { } while (0)
+#endif
+
 
 
 #endif /* COMMON_H */
